@@ -9,8 +9,39 @@ use lexpr::Value;
 use serde_json::{json, Value as J};
 use std::collections::HashSet;
 
-pub const PRINTERS: &[&str] = &["to_string", "to_vec", "to_writer", "display"];
-pub const PARSERS: &[&str] = &["from_str", "from_slice", "from_reader", "str_parse"];
+pub const PRINTERS: &[&str] = &["to_string", "to_vec", "to_writer", "display", "to_writer_trickle"];
+pub const PARSERS: &[&str] = &["from_str", "from_slice", "from_reader", "str_parse", "from_reader_trickle"];
+
+/// An io::Read that delivers 1, 2, 3, 1, 2, 3 ... bytes per call (short, non-empty reads are legitimate).
+struct Trickle<'a> {
+    data: &'a [u8],
+    pos: usize,
+    turn: usize,
+}
+
+impl<'a> std::io::Read for Trickle<'a> {
+    fn read(&mut self, buf: &mut [u8]) -> std::io::Result<usize> {
+        self.turn += 1;
+        let n = (1 + self.turn % 3).min(buf.len()).min(self.data.len() - self.pos);
+        buf[..n].copy_from_slice(&self.data[self.pos..self.pos + n]);
+        self.pos += n;
+        Ok(n)
+    }
+}
+
+/// An io::Write that accepts at most two bytes per call.
+struct Sip(Vec<u8>);
+
+impl std::io::Write for Sip {
+    fn write(&mut self, buf: &[u8]) -> std::io::Result<usize> {
+        let n = buf.len().min(2);
+        self.0.extend_from_slice(&buf[..n]);
+        Ok(n)
+    }
+    fn flush(&mut self) -> std::io::Result<()> {
+        Ok(())
+    }
+}
 
 pub fn print_with(ep: &str, v: &Value) -> Result<Vec<u8>, String> {
     let r = std::panic::catch_unwind(|| -> Result<Vec<u8>, String> {
@@ -23,6 +54,11 @@ pub fn print_with(ep: &str, v: &Value) -> Result<Vec<u8>, String> {
                 Ok(out)
             }
             "display" => Ok(format!("{}", v).into_bytes()),
+            "to_writer_trickle" => {
+                let mut out = Sip(Vec::new());
+                lexpr::to_writer(&mut out, v).map_err(|e| e.to_string())?;
+                Ok(out.0)
+            }
             x => panic!("printer {}", x),
         }
     });
@@ -42,6 +78,7 @@ pub fn parse_with(ep: &str, text: &[u8]) -> J {
         },
         "from_slice" => res_json(&lexpr::from_slice(&t)),
         "from_reader" => res_json(&lexpr::from_reader(&t[..])),
+        "from_reader_trickle" => res_json(&lexpr::from_reader(Trickle { data: &t, pos: 0, turn: 0 })),
         "str_parse" => match std::str::from_utf8(&t) {
             Ok(s) => res_json(&s.parse::<Value>()),
             Err(_) => json!({"r":"notutf8"}),
@@ -55,6 +92,7 @@ fn parse_value_with(ep: &str, text: &[u8]) -> Result<Value, String> {
         "from_str" => std::str::from_utf8(text).map_err(|e| e.to_string()).and_then(|s| lexpr::from_str(s).map_err(|e| e.to_string())),
         "from_slice" => lexpr::from_slice(text).map_err(|e| e.to_string()),
         "from_reader" => lexpr::from_reader(text).map_err(|e| e.to_string()),
+        "from_reader_trickle" => lexpr::from_reader(Trickle { data: text, pos: 0, turn: 0 }).map_err(|e| e.to_string()),
         "str_parse" => std::str::from_utf8(text).map_err(|e| e.to_string()).and_then(|s| s.parse::<Value>().map_err(|e| e.to_string())),
         x => panic!("parser {}", x),
     });
